@@ -9,7 +9,7 @@ ROW = re.compile(r'^row (.+) (out=\S+) tried=(\d+) mismatches=(\d+) first=(-?\d+
 
 
 def run(ctx):
-    cfgs = ['prod', 'san', 'p64'] if ctx.quick else ['prod', 'san', 'p64', 'p32', 'p32-san', 'gcc-san']
+    cfgs = ['prod', 'san', 'p64', 'p32'] if ctx.quick else ['prod', 'san', 'p64', 'p32', 'p32-san', 'gcc-san']
     exes = session.build_exes({c: (c, 'alias_drv.cpp', []) for c in cfgs})
     trials = 24 if ctx.quick else 400
     rows_seen = {}
